@@ -71,6 +71,9 @@ type RecStorer struct {
 	TypeChanges []string
 	WriteLog    []string
 	KeepLog     bool
+	// MapIdiom makes GetValue answer an unknown name the way the usual map idiom does
+	// (v, ok := m[name]; return &v, ok): a non-nil, empty Value together with ok == false.
+	MapIdiom bool
 }
 
 func NewRecStorer() *RecStorer { return &RecStorer{vals: map[string]model.Val{}} }
@@ -79,6 +82,9 @@ func (s *RecStorer) GetValue(name string) (*variable.Value, bool) {
 	s.Reads++
 	v, ok := s.vals[name]
 	if !ok {
+		if s.MapIdiom {
+			return &variable.Value{}, false
+		}
 		return nil, false
 	}
 	return FromVal(v), true
